@@ -21,6 +21,10 @@ type Direct struct {
 	// Pre, if set, is a modifier applied to the contact object first: the judged application then
 	// starts from a state that was reached through the library rather than read from JSON
 	Pre J `json:"pre,omitempty"`
+	// OtherAssets: the modifier is read against a second SessionAssets instance built from the same
+	// document (assets reloaded between reading the contact and reading the modifier): its groups,
+	// channels etc are other objects with the same identities
+	OtherAssets bool `json:"other_assets,omitempty"`
 }
 
 // DirectResult is what was observed.
@@ -44,6 +48,7 @@ type DirectResult struct {
 
 // World caches what is shared between applications.
 type World struct {
+	SA2  flows.SessionAssets // a second instance from the same document
 	SA   flows.SessionAssets
 	Env  envs.Environment
 	engs map[int]flows.Engine
@@ -59,7 +64,11 @@ func NewWorld() (*World, error) {
 	if err != nil {
 		return nil, err
 	}
-	return &World{SA: sa, Env: env, engs: map[int]flows.Engine{}}, nil
+	sa2, _, err := world.BuildAssets(Assets(nil))
+	if err != nil {
+		return nil, err
+	}
+	return &World{SA: sa, SA2: sa2, Env: env, engs: map[int]flows.Engine{}}, nil
 }
 
 func (w *World) Engine(maxField int) flows.Engine {
@@ -86,7 +95,11 @@ func (w *World) Run(d *Direct) *DirectResult {
 			return
 		}
 		mj, _ := json.Marshal(d.Modifier)
-		mod, err := modifiers.ReadModifier(w.SA, mj, assets.IgnoreMissing)
+		msa := w.SA
+		if d.OtherAssets {
+			msa = w.SA2
+		}
+		mod, err := modifiers.ReadModifier(msa, mj, assets.IgnoreMissing)
 		if err == modifiers.ErrNoModifier {
 			r.NoModifier = true
 			return
